@@ -264,4 +264,26 @@ let cmd_relayout (req : json) : json =
              ("statements", Arr (List.rev_map (fun ((sp, addr), len) -> Arr [ jspan sp; jz addr; jnat len ]) r.lr_addrs)) ])
   with Unsupported s -> Obj [ ("status", Str "unsupported"); ("detail", Str s) ]
 
-let () = main_loop [ ("codegen", cmd_codegen); ("relayout", cmd_relayout) ]
+(* ---------- C07: expansion by hand, printed as source text ---------- *)
+let fsyms_of (req : json) : (n list list * symdata) list =
+  List.map (fun e -> match to_list e with
+      | p :: _ :: v :: _ -> (split_path (to_str p), symdata_of v)
+      | _ -> ([], DPlaceholder)) (to_list (field req "symbols"))
+
+let cmd_expand (req : json) : json =
+  try
+    let toks = tokens_of_ast (field req "ast") in
+    let m = fsyms_of req in
+    let b k = to_bool (field req k) in
+    let o = { x_loops = b "loops"; x_ifs = b "ifs"; x_macros = b "macros"; x_consts = b "consts"; x_imports = b "imports" } in
+    (match expand o (nat_of_int 400) m toks with
+     | Inr w -> Obj [ ("status", Str (if int_of_nat w = 0 then "fuel" else "not_expandable")) ]
+     | Inl None -> Obj [ ("status", Str "none") ]
+     | Inl (Some ts) -> Obj [ ("status", Str "ok"); ("text", Str (string_of_text (print_tokens (fun m -> text_of_string (mnemonic_name m)) (nat_of_int 400) ts))) ])
+  with Unsupported s -> Obj [ ("status", Str "unsupported"); ("detail", Str s) ]
+
+let cmd_print (req : json) : json =
+  try Obj [ ("status", Str "ok"); ("text", Str (string_of_text (print_tokens (fun m -> text_of_string (mnemonic_name m)) (nat_of_int 400) (tokens_of_ast (field req "ast"))))) ]
+  with Unsupported s -> Obj [ ("status", Str "unsupported"); ("detail", Str s) ]
+
+let () = main_loop [ ("codegen", cmd_codegen); ("relayout", cmd_relayout); ("expand", cmd_expand); ("print", cmd_print) ]
